@@ -68,6 +68,35 @@ func checkC14(c *Ctx) {
 
 	// ---- C14.3 positive bound
 	r.Rule("C14.3", "crypto/rand.Int bounds are positive constants or guarded by a positivity test", 3)
+	// the same for the legacy generator: (*math/rand.Rand).Intn / Int63n / Int31n panic on a bound <= 0 - a generation whose
+	// weights are all zero must make the selection fail, not the process
+	for _, f := range c.funcsOfPkgs(ph) {
+		eachInstr(f, func(in ssa.Instruction) {
+			call, ok := in.(*ssa.Call)
+			if !ok {
+				return
+			}
+			n := calleeName(&call.Call)
+			if !strings.HasPrefix(n, "(*math/rand.Rand).Int") && !strings.HasPrefix(n, "math/rand.Int") {
+				return
+			}
+			if !strings.HasSuffix(n, "n") || len(call.Call.Args) == 0 {
+				return
+			}
+			bound := call.Call.Args[len(call.Call.Args)-1]
+			construct := fnName(f) + ": " + shortName(n) + " bound " + firstN(pathOf(bound), 50)
+			if cv, isC := constOf(bound); isC && constant.Sign(cv) > 0 {
+				r.OK("C14.3", construct, call.Pos(), "positive constant")
+				return
+			}
+			bp := pathOf(stripConv(bound))
+			g := guardedM(f, call, func(cnd string, pol bool) bool {
+				return (pol && (cnd == "(0 < "+bp+")")) || (!pol && (cnd == "("+bp+" < 1)" || cnd == "(0 == "+bp+")"))
+			})
+			r.Check(g, "C14.3", construct, call.Pos(), fnName(f), "dominated by a positivity test of the bound",
+				"the draw's bound is not known to be positive: for a generation whose weights add up to zero the legacy selection panics (invalid argument to Intn) instead of failing with an error")
+		})
+	}
 	var randFns []*ssa.Function
 	randFns = append(randFns, c.funcsOfPkgs(ph)...)
 	if f := c.fn("C14.3", "pkg/transports", "", "PortSelectorRange"); f != nil {
